@@ -127,7 +127,7 @@ def control(r):
     if k < 0.65:
         return f"{c} -> advance({r.randint(1, 3)})"
     if k < 0.85:
-        return r.choice([f"{c} -> fail()", f"fail_and_stop({c})"]) if not c.startswith(("#", "@")) else f"{c} -> fail()"
+        return r.choice([f"{c} -> fail()", f"fail_and_stop({c})", f"{c} -> fail_all()"]) if not c.startswith(("#", "@")) else f"{c} -> fail()"
     return f"last() -> {effect(r)}"
 
 
